@@ -75,6 +75,8 @@ structure Hdr where
   value : Bytes
   deriving DecidableEq, Repr
 
+instance : Inhabited Hdr := ⟨⟨[], []⟩⟩
+
 /-- error kinds of the header loop: `packetError`, or `indexError` for `line[0]` on an empty line
     (shown unreachable for extracted lines) -/
 inductive HdrErr | packetError | indexError deriving DecidableEq, Repr
